@@ -105,6 +105,10 @@ class SignEval(object):
             if isinstance(e.value, ast.Name) and 'shape' in e.value.id:
                 # a parameter / local holding an array shape
                 return MAYZERO
+            # an element / a view (`x[:, None]`) of an array whose
+            # entries are all positive
+            if self.eval(e.value, at, depth+1) == POS:
+                return POS
             return UNK
         if isinstance(e, ast.Attribute):
             if e.attr in ('size', 'nnz'):
@@ -132,14 +136,14 @@ class SignEval(object):
                 if nm == 'int' and not self._is_realvalued(inner):
                     return self.eval(inner, at, depth+1)
                 return MAYZERO
-            if nm == 'max' and e.args:
+            if nm in ('max', 'maximum') and e.args:
                 cs = [self.eval(a, at, depth+1) for a in e.args]
                 if POS in cs:
                     return POS
                 if all(c == MAYZERO for c in cs):
                     return MAYZERO
                 return UNK
-            if nm == 'min' and e.args:
+            if nm in ('min', 'minimum') and e.args:
                 cs = [self.eval(a, at, depth+1) for a in e.args]
                 if all(c == POS for c in cs):
                     return POS
